@@ -165,7 +165,8 @@ Section Normaliser.
 
   (* _merge_single_markers(marker1, marker2, merge_class) *)
   Definition merge_single (kind : bool) (m1 m2 : atom) : option marker :=
-    if rev_in m1 || rev_in m2 then None          (* _is_reversed_containment: '"lit" in name' atoms are never merged *)
+    if atom_eqb m1 m2 then Some (MAtom m1)       (* marker1 == marker2: a & a = a | a = a *)
+    else if rev_in m1 || rev_in m2 then None          (* _is_reversed_containment: '"lit" in name' atoms are never merged *)
     else if pyver_pair (a_name m1) (a_name m2) then vmerge kind m1 m2
     else if negb (str_eqb (a_name m1) (a_name m2)) then None
     else if version_like (a_name m1) then vmerge kind m1 m2
